@@ -1,8 +1,11 @@
 import CashewsVerif.Model.Decor.Common
 /-
 Model of `cashews/decorators/cache/fail.py` (`failover`) as reached through
-`Cache.failover(ttl, exceptions=…)` (the facade wraps it in `_wrap_with_condition`; with no nested
-cache hit detected the condition is the default "store everything").
+`Cache.failover(ttl, exceptions=…, condition=…)` (the facade wraps it in `_wrap_with_condition`; with no nested
+cache hit detected the condition is the user's, default "store everything").
+
+The store step sits in the `else:` branch of the `try`, OUTSIDE `except exceptions`: whatever it raises — listed
+or not — leaves the wrapper as it is, and the stored result is neither consulted nor changed.
 -/
 namespace CashewsVerif.Decor.Fail
 
@@ -16,7 +19,8 @@ structure St where
 
 def init : St := { t := TtlMap.init, nexec := 0 }
 
-/-- `_wrap`: execute first; `except exceptions: cached = backend.get(key) …; else: backend.set(key, result, expire=ttl)` -/
+/-- `_wrap`: execute first; `except exceptions: cached = backend.get(key) …;
+else: if condition(result, …): _ttl = ttl_to_seconds(ttl, …, result=result); backend.set(key, result, expire=_ttl); return result` -/
 def call (c : Cfg) (s : St) (o : Outcome) : St × CallOut :=
   let id := s.nexec
   match o with
@@ -26,6 +30,10 @@ def call (c : Cfg) (s : St) (o : Outcome) : St × CallOut :=
     | some (stamp, id0) => ({ s with nexec := id + 1 }, ⟨.stored stamp id0, true, false⟩)
     | none => ({ s with nexec := id + 1 }, ⟨.raised .listed, true, false⟩)
   | .unlisted => ({ s with nexec := id + 1 }, ⟨.raised .unlisted, true, false⟩)
+  -- `condition(...)` is False: `return result`, nothing stored
+  | .rejected => ({ s with nexec := id + 1 }, ⟨.fresh s.t.now id, true, false⟩)
+  -- the condition / the callable ttl / `backend.set` raises in the `else:` branch: it propagates
+  | .storeFails _ l => ({ s with nexec := id + 1 }, ⟨.storeErr l, true, false⟩)
 
 def step (c : Cfg) (s : St) : DOp → St × Ans
   | .call o => let r := call c s o; (r.1, .call r.2)
